@@ -48,13 +48,30 @@ def guarded(f):
     return r
 
 
+def container(tokens):
+    """the same token sequence as a list / tuple / one-shot generator / iterator / map object (which
+    kind is a function of the tokens, so that a replay is deterministic): CScript(iterable) is
+    documented for any iterable"""
+    toks = [tok_in(t) for t in tokens]
+    kind = (len(toks) + sum(1 for t in tokens if isinstance(t, (bytes, bytearray)))) % 5
+    if kind == 1:
+        return tuple(toks)
+    if kind == 2:
+        return (t for t in toks)
+    if kind == 3:
+        return iter(toks)
+    if kind == 4:
+        return map(lambda t: t, toks)
+    return toks
+
+
 def run(op, a):
     if op == 1:
-        return bytes(CScript([tok_in(t) for t in a[0]]))
+        return bytes(CScript(container(a[0])))
     if op == 2:
         return stream(CScript(a[0]), tok_out)
     if op == 3:
-        s = CScript([tok_in(t) for t in a[0]])
+        s = CScript(container(a[0]))
         back = list(s)
         s2 = CScript(back)
         return [bytes(s), [tok_out(t) for t in back], bytes(s2)]
